@@ -27,7 +27,7 @@ def run(run, replay=None):
     _dcommon.mc_dom(run, ['RoundTrip', 'Canonical', 'Serialisable'])
     cat = Catalog()
     traces = []
-    for n in range(700 if quick else 20000):
+    for n in range(700 if quick else 5000):
         h = domdriver.History(cat)
         tid = domgen.build_tree(h, rng, via_attrs=rng.random() < 0.5)
         if rng.random() < 0.4:
@@ -56,8 +56,7 @@ def run(run, replay=None):
     from harness import gen
     mtrees = gen.behaviours('MC_Dom', {'Scope': 1 if quick else 2}, invariant='Emit', run=run,
                             cfg_extra='CONSTANT Tables <- NoTables\n', timeout=1200)
-    if quick:
-        mtrees = rng.sample(mtrees, min(len(mtrees), 80))
+    mtrees = rng.sample(mtrees, min(len(mtrees), 80 if quick else 1500))
     for t in mtrees:
         h = domdriver.History(cat)
         tid = domgen.build_from_model(h, t)
